@@ -93,6 +93,8 @@ pub struct Summary {
     pub crashes: u64,
     pub samples: Vec<Value>,
     pub extra: BTreeMap<String, u64>,
+    /// set when a driver was aborted by a panic: the trace it was writing is incomplete
+    pub aborted: bool,
 }
 
 impl Summary {
